@@ -11,7 +11,7 @@ def gen(tier, seed, salt, n_quick, n_thorough, fixed=True):
     pools = {"corpus": T.corpus_texts() + T.dataset_texts(400)}
     cases = []
     if fixed:
-        for t in T.IMPOSSIBLE + T.MODIFIER_STACKS + T.TRIVIAL + T.POD_EDGE + T.MONTH_END_RANGES + T.POD_RANGES:
+        for t in T.IMPOSSIBLE + T.MODIFIER_STACKS + T.TRIVIAL + T.POD_EDGE + T.MONTH_END_RANGES + T.POD_RANGES + T.SAME_HOUR_PAIRS:
             for lat in (True, False):
                 cases.append({"g": "G1/fixed", "t": t, "ts": "2021-03-10T12:43:30", "o": {"latent_time": lat, "max_stack_depth": 10,
                                                                                          "relative_match_len": 1.0, "scorer": "shipped", "debug": False}})
@@ -29,11 +29,34 @@ def gen(tier, seed, salt, n_quick, n_thorough, fixed=True):
                     t = ["%s %dth" % (wd, dd) if dd != 31 else "%s 31st" % wd, "%s der %d." % (wd, dd), "%s %d." % (wd, dd)][k % 3]
                     cases.append({"g": "G1/weekday+day-of-month", "t": t, "ts": "%04d-%02d-15T09:30:00" % (y, mth),
                                   "o": {"latent_time": True, "max_stack_depth": 10, "relative_match_len": 1.0, "scorer": "shipped", "debug": False}})
+    # coverage-guided corpus (vf/tools/covsoup.py): texts that each showed a rule-application signature no other kept text
+    # shows; an input list only -- the monitors of the property decide on the current tree
+    cov = cov_entries()
+    if tier != "thorough":
+        cov = r.sample(cov, min(len(cov), 700))
+    for i, e in enumerate(cov):
+        o = {"latent_time": True, "max_stack_depth": 10, "relative_match_len": 1.0, "scorer": "shipped", "debug": False}
+        cases.append({"g": "G4/coverage-corpus", "t": e["t"], "ts": e["ts"], "o": o})
+        if tier == "thorough" or i % 3 == 0:
+            cases.append({"g": "G4/coverage-corpus", "t": e["t"], "ts": e["ts"], "o": dict(o, latent_time=False)})
+        if tier == "thorough":
+            cases.append({"g": "G4/coverage-corpus", "t": e["t"], "ts": T.ref_time(r), "o": T.options(r), "s": r.randrange(1 << 30)})
     n = n_thorough if tier == "thorough" else n_quick
     for i in range(n):
         g, t = T.text_case(r, pools)
         cases.append({"g": g, "t": t, "ts": T.ref_time(r), "o": T.options(r), "s": r.randrange(1 << 30)})
     return cases
+
+
+def cov_entries():
+    import json
+    import os
+    p = os.path.join(os.path.dirname(os.path.dirname(os.path.abspath(__file__))), "gen", "cov_corpus.json")
+    try:
+        with open(p, encoding="utf-8") as fd:
+            return json.load(fd)["entries"]
+    except OSError:
+        return []
 
 
 def opts(case, L, timeout=0):
